@@ -191,6 +191,55 @@ def run_graph(ctx, n, edges, real, start):
     return out
 
 
+def redirect_sets(n):
+    """Every template set on n pages R0..R(n-1) in which each page is a body page or a redirect to one of the pages
+    (itself included), to a missing page, or to its own title with a lower-case first letter (which is not stored)."""
+    kinds = ["body"] + ["to:%d" % k for k in range(n)] + ["to:missing", "to:lowerself"]
+    return list(itertools.product(kinds, repeat=n))
+
+
+def run_redirects(ctx, n, kinds, start, via):
+    for i, kd in enumerate(kinds):
+        title = "Template:R%d" % i
+        if kd == "body":
+            ctx.add_page(title, 10, "B%d[{{{1|}}}]" % i)
+        elif kd == "to:missing":
+            ctx.add_page(title, 10, None, redirect_to="Template:Nowhere")
+        elif kd == "to:lowerself":
+            ctx.add_page(title, 10, None, redirect_to="Template:r%d" % i)
+        else:
+            ctx.add_page(title, 10, None, redirect_to="Template:R" + kd[3:])
+    for i in range(n, 4):     # pages of an earlier, larger set
+        ctx.add_page("Template:R%d" % i, 10, "stale")
+    ctx.add_page("Template:viaT", 10, "<{{R%d|{{{1|}}}}}>" % start)
+    type(ctx).get_page.cache_clear()
+    ctx.start_page("Tt")
+    text = {"direct": "{{R%d|x}}" % start, "if": "{{#if:1|{{R%d|x}}}}" % start, "body": "{{viaT|x}}"}[via]
+    try:
+        with time_limit(GRAPH_LIMIT):
+            got = ctx.expand(text)
+    except Timeout:
+        return [("returns_in_bounded_time", "no result within %.0f s" % GRAPH_LIMIT, "returns")]
+    except RecursionError:
+        return [("no_exception", "RecursionError", "returns a string")]
+    except Exception as e:
+        return [("no_exception", type(e).__name__ + ": " + str(e)[:100], "returns a string")]
+    if not isinstance(got, str):
+        return [("returns_str", type(got).__name__, "str")]
+    out = []
+    # what the call must give when the answer is unambiguous: a body page, or one hop to a body page
+    kd = kinds[start]
+    target = start if kd == "body" else int(kd[3:]) if kd[3:].isdigit() and kinds[int(kd[3:])] == "body" else None
+    if target is not None:
+        want = "B%d[x]" % target
+        want = {"direct": want, "if": want, "body": "<" + want + ">"}[via]
+        if got != want:
+            out.append(("redirect_to_body_page_expands_it", got[:200], want))
+    if len(ctx.expand_stack) != 1:
+        out.append(("path_restored", list(ctx.expand_stack), ["Tt"]))
+    return out
+
+
 def digraphs(n):
     pairs = [(i, j) for i in range(n) for j in range(n)]
     for mask in range(1 << len(pairs)):
@@ -238,6 +287,25 @@ def work(payload, skip, report):
                     for o, ob, ex in res:
                         acc.violation(o, case, ob, ex)
         acc.sample({"templates": n, "graphs": len(graphs)})
+    elif kind == "redirects":
+        _, n, sets = payload
+        i = 0
+        for kinds in sets:
+            for start in range(n):
+                for via in ("direct", "if", "body"):
+                    case = {"redirect_set": list(kinds), "start": start, "via": via}
+                    if i in skip:
+                        acc.violation("returns_in_time", case, "hang", "returns")
+                        i += 1
+                        continue
+                    report(i)
+                    i += 1
+                    res = run_redirects(ctx, n, kinds, start, via)
+                    acc.case()
+                    acc.distinct("cases", case)
+                    for o, ob, ex in res:
+                        acc.violation(o, case, ob, ex)
+        acc.sample({"redirect_sets": len(sets), "pages": n})
     elif kind == "towers":
         _, depths = payload
         i = 0
@@ -462,6 +530,11 @@ def main(run):
         chunks.append(("graphs", 3, g3[k::64]))
     for n, edges in families():
         chunks.append(("graphs", n, [edges]))
+    for n in ((1, 2, 3) if q else (1, 2, 3, 4)):
+        rs = redirect_sets(n)
+        parts = 1 if n < 3 else 8 if n == 3 else 32
+        for k in range(parts):
+            chunks.append(("redirects", n, rs[k::parts]))
     depths = list(range(1, 121)) if not q else list(range(1, 121, 7)) + [98, 99, 100, 101, 120]
     for k in range(8):
         if depths[k::8]:
@@ -495,12 +568,14 @@ def main(run):
         "parser_functions": len(fns),
         "rule": "(a) all digraphs with self-loops on 1..3 templates (2+16+512) x 4 edge realisations (direct call, inside an argument, "
                 "inside a parameter default, inside an #if branch) x every start template, 10 ring/chain/two-ring families on 4-5 "
-                "templates, chains / literal nesting / #if nesting / default nesting to depth 120; (b) every one of %d parser functions "
+                "templates, chains / literal nesting / #if nesting / default nesting to depth 120; every set of 1..%d template pages each of which "
+                "is a body page or a redirect (to any page of the set incl. itself, to a missing page, to its own lower-case spelling) x "
+                "every start page x call position (direct, #if branch, another template's body); (b) every one of %d parser functions "
                 "(network-backed #property/#statements and #invoke excluded) x every argument vector of length <= %d over 12 atoms "
                 "(4 page titles for length <= 1) in both call forms; (c) every #expr token string of length <= %d over %d symbols "
                 "(all operators and function words); (d) resource-exhaustion probes. Every case under a 20 s watchdog and a 4 GiB "
                 "address-space limit. distinct = distinct outputs / graph cases."
-                % (len(fns), 2 if q else 3, 3 if q else 4, len(EXPR_Q if q else EXPR)),
+                % (3 if q else 4, len(fns), 2 if q else 3, 3 if q else 4, len(EXPR_Q if q else EXPR)),
         "exhaustive": True,
     }
     assumptions = [
